@@ -287,6 +287,33 @@ type fuzzProc struct {
 
 var fuzzNotes int
 
+// circuit breaker: a change that makes (nearly) every input of a target hang would cost one
+// watchdog period per input.  Once a target has hung 6 times and on more than a fifth of its
+// inputs, its remaining inputs are not run (the violation is already established).
+var (
+	fuzzRan     = map[string]int{}
+	fuzzHung    = map[string]int{}
+	fuzzTripped = map[string]bool{}
+)
+
+func fuzzBreaker(target string, hung bool) (skip bool) {
+	fuzzMu.Lock()
+	defer fuzzMu.Unlock()
+	if hung {
+		fuzzHung[target]++
+		if fuzzHung[target] >= 6 && fuzzHung[target]*5 > fuzzRan[target] && !fuzzTripped[target] {
+			fuzzTripped[target] = true
+			note(fmt.Sprintf("target %s hung on %d of %d inputs: its remaining inputs are skipped", target, fuzzHung[target], fuzzRan[target]))
+		}
+		return false
+	}
+	if fuzzTripped[target] {
+		return true
+	}
+	fuzzRan[target]++
+	return false
+}
+
 // fuzzNote records a finding in the evidence; the first 40 in full, the rest only counted.
 func fuzzNote(s string) {
 	fuzzNotes++
@@ -473,6 +500,9 @@ func execFuzz(in string) Result {
 	if ti < 0 {
 		return Result{Term: "FZ 99%N 0%N", Tags: append(tags, "unknown-target")}
 	}
+	if fuzzBreaker(target, false) {
+		return Result{Term: fmt.Sprintf("FZ %d%%N 0%%N", ti), Tags: append(tags, "skipped-after-hangs")}
+	}
 	p := <-fuzzPool
 	t0 := time.Now()
 	type answer struct {
@@ -596,5 +626,8 @@ func execFuzz(in string) Result {
 		}
 	}
 	fuzzPool <- p
+	if outcome == 2 {
+		fuzzBreaker(target, true)
+	}
 	return Result{Term: fmt.Sprintf("FZ %d%%N %d%%N", ti, outcome), Tags: tags, Nontrivial: nontrivial}
 }
